@@ -62,6 +62,9 @@ const WALK_LIB_PREFIXES: &[&str] = &[
     "<std::option::Option<",
     "<core::result::Result<",
     "<std::result::Result<",
+    // bool::then / bool::then_some (`cond.then_some(v).ok_or(err)?` is a common spelling of a guard)
+    "core::bool::<impl bool>::",
+    "std::bool::<impl bool>::",
 ];
 
 const WALK_LIB_DENY: &[&str] = &[
@@ -336,6 +339,17 @@ impl<'tcx> Cx<'tcx> {
     }
 
     fn should_walk(&self, ci: Instance<'tcx>, key: &str) -> bool {
+        // `f(x)` where f is a function ITEM passed as FnOnce/FnMut/Fn (`.map(Self::helper)`, `map_or_else(Vec::new, ..)`):
+        // the compiler-generated shim body is one direct call of that item; walk it so the item is an ordinary callee
+        // (and its effects are seen) instead of disappearing behind an opaque library leaf.
+        if let ty::InstanceKind::FnPtrShim(_, fty) = ci.def {
+            if let ty::FnDef(..) = fty.kind() {
+                return true;
+            }
+        }
+        if let ty::InstanceKind::ClosureOnceShim { .. } = ci.def {
+            return true;
+        }
         let has_mir = match ci.def {
             ty::InstanceKind::Item(d) => self.tcx.is_mir_available(d),
             ty::InstanceKind::ClosureOnceShim { .. } => true,
